@@ -344,6 +344,9 @@ StepQuiesce(s, e) ==
                   \o ChkW(\A i \in 1..Len(zs) : DrainedD1(zs[i]), "C03", "DrainedD1", zs)
                   \o Chk(e.nunacked = 0, "C03", "DrainedD1:broker-unacked")
                   \o ChkW(e.queued = <<>>, "C03", "DrainedD1:queued", e.queued)
+                  (* C09: in a trouble-free SUCCEEDED execution every state entered has been exited *)
+                  \o (LET bad == {x \in DOMAIN s.ex : ~s.crashed /\ ~EnteredStatesExit(s.ex[x].hist)}
+                      IN ChkX(bad = {}, "C09", "EnteredStatesExit", IF bad = {} THEN "" ELSE CHOOSE x \in bad : TRUE, bad))
              ELSE <<>>))
 
 (* the engine process is gone: its timers die with it; with the file-backed configuration the
